@@ -70,3 +70,12 @@ pub fn assume(c: bool) {
     #[cfg(not(kani))]
     if !c { std::panic::panic_any(Rejected); }
 }
+
+/// a value that is nondeterministic in native search but fixed under Kani (keeps 64-bit position
+/// arithmetic of the stream wrapper concrete; stated in the harness bounds)
+pub fn pick(concrete: u8) -> u8 {
+    #[cfg(kani)]
+    { concrete }
+    #[cfg(not(kani))]
+    { let _ = concrete; any() }
+}
